@@ -18,6 +18,7 @@ package stream
 
 import (
 	"fmt"
+	"github.com/rulego/streamsql/utils/verifhook"
 	"strings"
 	"sync"
 	"sync/atomic"
@@ -269,6 +270,7 @@ func (s *Stream) Stop() {
 	s.startMu.Unlock()
 
 	close(s.done)
+	verifhook.Yield("stop.after-close-done")
 
 	// Stop window operations first to prevent new window triggers
 	if s.Window != nil {
@@ -279,6 +281,7 @@ func (s *Stream) Stop() {
 	s.dataChanMux.Lock()
 	s.dataChan = nil
 	s.dataChanMux.Unlock()
+	verifhook.Yield("stop.after-nil-datachan")
 
 	// Stop and clean up data processing strategy resources
 	if s.dataStrategy != nil {
